@@ -1151,9 +1151,48 @@ func (c *FnCtx) checkAsserts(fr *frame, b *ssa.BasicBlock, st *State, in ssa.Ins
 	}
 }
 
+// addrTakenLocal: a local variable that lives in memory (its address is
+// taken). Its value-typed debug references only show the initial value, so a
+// contract name must denote the variable itself: for arrays and structs the
+// pointer to it (fields and elements are then read in the state of the
+// clause); other kinds are not resolvable (ok == false).
+func (c *FnCtx) addrTakenLocal(fr *frame, name string) (v Val, isAddrTaken, ok bool) {
+	for _, blk := range fr.fn.Blocks {
+		for _, in := range blk.Instrs {
+			d, isRef := in.(*ssa.DebugRef)
+			if !isRef || !d.IsAddr {
+				continue
+			}
+			id, isId := d.Expr.(*ast.Ident)
+			if !isId || id.Name != name {
+				continue
+			}
+			if _, isAlloc := d.X.(*ssa.Alloc); !isAlloc {
+				continue
+			}
+			pt, isPtr := d.X.Type().Underlying().(*types.Pointer)
+			if !isPtr {
+				continue
+			}
+			switch pt.Elem().Underlying().(type) {
+			case *types.Array, *types.Struct:
+				if _, computed := fr.regs[d.X]; computed {
+					return c.value(fr, d.X), true, true
+				}
+				return Val{}, true, false
+			}
+			return Val{}, true, false
+		}
+	}
+	return Val{}, false, false
+}
+
 // debugAt: value of a source variable just before instruction `at` in block
 // b, from the debug references of b (before `at`) and of dominating blocks.
 func (c *FnCtx) debugAt(fr *frame, b *ssa.BasicBlock, at ssa.Instruction, name string) (Val, bool) {
+	if v, isAddrTaken, ok := c.addrTakenLocal(fr, name); isAddrTaken {
+		return v, ok
+	}
 	var best ssa.Value
 	scan := func(blk *ssa.BasicBlock, stop ssa.Instruction) {
 		for _, in := range blk.Instrs {
